@@ -1,6 +1,7 @@
 package ssau
 
 import (
+	"go/constant"
 	"fmt"
 
 	"golang.org/x/tools/go/ssa"
@@ -53,6 +54,28 @@ func AbsWalk(fn *ssa.Function, env AbsEnv) AbsResult {
 			b = b.Succs[0]
 		case *ssa.If:
 			v, known := env.Eval(t, visits[t])
+			if !known {
+				// a condition joined from several paths (a && b, a || b): decide by the value that flowed in along
+				// the path actually walked
+				base, neg := StripNot(t.Cond)
+				if phi, ok := base.(*ssa.Phi); ok && phi.Block() == b && len(res.Trace) >= 2 {
+					prev := res.Trace[len(res.Trace)-2]
+					for k, p := range b.Preds {
+						if p.Index != prev {
+							continue
+						}
+						e := phi.Edges[k]
+						if c, ok := e.(*ssa.Const); ok && c.Value != nil && c.Value.Kind() == constant.Bool {
+							v, known = constant.BoolVal(c.Value) != neg, true
+						} else {
+							ev, ek := safeEval(env, &ssa.If{Cond: e}, visits[t])
+							if ek {
+								v, known = ev != neg, true
+							}
+						}
+					}
+				}
+			}
 			visits[t]++
 			if !known {
 				res.Unknown = t
@@ -86,4 +109,15 @@ func SliceLoopCond(i *ssa.If) bool {
 		return true
 	}
 	return false
+}
+
+// safeEval evaluates a synthetic branch (no enclosing block); environments that look at the block are answered
+// "unknown" instead of failing.
+func safeEval(env AbsEnv, i *ssa.If, visit int) (v bool, known bool) {
+	defer func() {
+		if recover() != nil {
+			v, known = false, false
+		}
+	}()
+	return env.Eval(i, visit)
 }
